@@ -32,6 +32,8 @@ for s in $SIMSRC; do ( $CXX $SIMFLAGS -c $VERIF/sim/$s.cpp -o $OUT/sim_$s.o 2>$O
 for p in "${pids[@]}"; do wait $p || fail=1; done
 if [ $fail = 1 ]; then rm -rf $OUT; echo "BUILD FAILED" >&2; exit 2; fi
 cat $OUT/*.err >&2 || true
-$CXX $SAN -g -o $BIN $OUT/*.o -Wl,--wrap=fopen,--wrap=fseek,--wrap=ftell,--wrap=fread,--wrap=fclose >&2 || { rm -rf $OUT; exit 2; }
+WRAPS="-Wl,--wrap=fopen,--wrap=fseek,--wrap=ftell,--wrap=fread,--wrap=fclose"
+if [ "$FLAVOUR" = tsan ]; then for b in 8 16 32 64; do for o in load store exchange fetch_add fetch_sub compare_exchange_strong compare_exchange_weak; do WRAPS="$WRAPS,--wrap=__tsan_atomic${b}_$o"; done; done; fi
+$CXX $SAN -g -o $BIN $OUT/*.o $WRAPS >&2 || { rm -rf $OUT; exit 2; }
 rm -f $OUT/*.err
 echo $BIN
